@@ -22,13 +22,15 @@ import (
 // known-finding ids (see /verif/findings.d/c14.json; the class-object defects are recorded by C03
 // and its ids are reused here, /verif/findings.d/c03.json)
 const (
-	fTrim    = "C14-static-value-trimmed"             // static / bracketed values lose leading and trailing whitespace
-	fObjNil  = "C03-class-object-nil-adds-class"      // :class="{k: x}" adds k when x is nil / undefined (value stringified to "<nil>")
-	fObjStr  = "C03-class-object-string-reparsed"     // :class="{k: x}" drops k for non-empty strings that re-parse as zero / blank
-	fChain   = "C14-vshow-skipped-in-if-chain"        // v-show on an element that also carries v-if / v-else-if / v-else is ignored
-	fDisplay = "C14-vshow-lost-under-bound-display"   // a bound style declaring `display` overrides v-show's display:none
-	fKeep    = "C14-vkeep-template-attrs-unevaluated" // <template v-keep>: bound / interpolated / v-show attributes are not evaluated
-	fClsFmt  = "C14-class-merge-nonstring-format"     // class="a" :class="n" with a non-string n renders "a %!s(int=5)"
+	fTrim    = "C14-static-value-trimmed"               // static / bracketed values lose leading and trailing whitespace
+	fObjNil  = "C03-class-object-nil-adds-class"        // :class="{k: x}" adds k when x is nil / undefined (value stringified to "<nil>")
+	fObjStr  = "C03-class-object-string-reparsed"       // :class="{k: x}" drops k for non-empty strings that re-parse as zero / blank
+	fChain   = "C14-vshow-skipped-in-if-chain"          // v-show on an element that also carries v-if / v-else-if / v-else is ignored
+	fDisplay = "C14-vshow-lost-under-bound-display"     // a bound style declaring `display` overrides v-show's display:none
+	fKeep    = "C14-vkeep-template-attrs-unevaluated"   // <template v-keep>: bound / interpolated / v-show attributes are not evaluated
+	fClsFmt  = "C14-class-merge-nonstring-format"       // class="a" :class="n" with a non-string n renders "a %!s(int=5)"
+	fQuote   = "C14-style-object-value-quotes-stripped" // :style="{k: v}": a quote at either end of v is cut off
+	fSemi    = "C14-style-semicolon-in-value-cut"       // a ';' inside url(...) or quotes cuts the declaration when the style is rebuilt
 )
 
 // other ids under which the same defects may be listed (either one closes the region)
@@ -46,7 +48,7 @@ type findings struct {
 func loadFindings(rec *ev.Rec) *findings {
 	f := kf.Load()
 	o := map[string]bool{}
-	for _, id := range []string{fTrim, fObjNil, fObjStr, fChain, fDisplay, fKeep, fClsFmt} {
+	for _, id := range []string{fTrim, fObjNil, fObjStr, fChain, fDisplay, fKeep, fClsFmt, fQuote, fSemi} {
 		o[id] = f.Open(id)
 		for _, alt := range aliases[id] {
 			o[id] = o[id] || f.Open(alt)
@@ -160,6 +162,73 @@ func (c Case) classFmtRegion() []string {
 	return paths
 }
 
+func edgeQuote(s string) bool {
+	s = strings.TrimSpace(s)
+	return s != "" && (strings.ContainsAny(s[:1], "'\"") || strings.ContainsAny(s[len(s)-1:], "'\""))
+}
+
+// quoteRegion lists the data paths of style-object values that start or end with a quote.
+func (c Case) quoteRegion() []string {
+	var paths []string
+	for _, a := range c.Attrs {
+		if (a.Kind == "obj" || a.Kind == "vobj") && a.Name == "style" {
+			for _, p := range a.Pairs {
+				if p.Src != "path" {
+					continue
+				}
+				for k := 0; k < c.instances(); k++ {
+					if v := c.lookup(p.Arg, k); v.K == "string" && edgeQuote(v.S) {
+						paths = append(paths, p.Arg)
+						break
+					}
+				}
+			}
+		}
+	}
+	return paths
+}
+
+// semiRegion: some style text of the case (static, bound string, object value) has a ';' inside
+// parentheses or quotes.
+func (c Case) semiRegion() bool {
+	for _, a := range c.Attrs {
+		if a.Name != "style" {
+			continue
+		}
+		switch a.Kind {
+		case "static":
+			if innerSemicolon(a.Text) {
+				return true
+			}
+		case "bind", "vbind":
+			for k := 0; k < c.instances(); k++ {
+				if v := c.lookup(a.Text, k); v.K == "string" && innerSemicolon(v.S) {
+					return true
+				}
+			}
+		case "obj", "vobj":
+			for _, p := range a.Pairs {
+				for k := 0; k < c.instances(); k++ {
+					if v, _, _ := c.pairVal(p, k); v.K == "string" && innerSemicolon(v.S) {
+						return true
+					}
+				}
+			}
+		}
+	}
+	return false
+}
+
+// noInnerSemicolon rewrites the semicolons inside parentheses / quotes to commas.
+func noInnerSemicolon(s string) string {
+	parts := splitDecls(s)
+	for i := range parts {
+		parts[i] = strings.ReplaceAll(parts[i], ";", ",")
+	}
+	// splitDecls cut at the separating semicolons only; whatever ';' is left inside a part is inner
+	return strings.Join(parts, ";")
+}
+
 func dynamicKind(k string) bool {
 	switch k {
 	case "interp", "bind", "vbind", "obj", "vobj", "show":
@@ -210,6 +279,12 @@ func (f *findings) regions(c Case) []string {
 	}
 	if f.open[fClsFmt] && len(c.classFmtRegion()) > 0 {
 		out = append(out, fClsFmt)
+	}
+	if f.open[fQuote] && len(c.quoteRegion()) > 0 {
+		out = append(out, fQuote)
+	}
+	if f.open[fSemi] && c.semiRegion() {
+		out = append(out, fSemi)
 	}
 	if f.open[fKeep] && c.Tag == "template" {
 		for _, a := range c.Attrs {
@@ -299,6 +374,34 @@ func (f *findings) repair(c Case) Case {
 		case fClsFmt:
 			for _, p := range c.classFmtRegion() {
 				c.Data[p] = vals.Str("b1")
+			}
+		case fSemi:
+			for i, a := range c.Attrs {
+				if a.Name != "style" {
+					continue
+				}
+				switch a.Kind {
+				case "static":
+					c.Attrs[i].Text = noInnerSemicolon(a.Text)
+				case "bind", "vbind":
+					if v, ok := c.Data[a.Text]; ok && v.K == "string" {
+						c.Data[a.Text] = vals.Str(noInnerSemicolon(v.S))
+					}
+				case "obj", "vobj":
+					for j, p := range a.Pairs {
+						if p.Src == "str" {
+							c.Attrs[i].Pairs[j].Arg = noInnerSemicolon(p.Arg)
+						} else if v, ok := c.Data[p.Arg]; ok && v.K == "string" {
+							c.Data[p.Arg] = vals.Str(noInnerSemicolon(v.S))
+						}
+					}
+				}
+			}
+		case fQuote:
+			for _, p := range c.quoteRegion() {
+				if !strings.HasPrefix(p, slotVar+".") && p != forVar {
+					c.Data[p] = vals.Str("local('a b'), serif") // quotes inside the value only
+				}
 			}
 		case fKeep:
 			var kept []Attr
@@ -479,6 +582,64 @@ func classify(c Case) (bool, []string) {
 			}
 		}
 	}
+	{
+		punct := func(where, v string) {
+			if strings.Contains(v, ":") {
+				add("style-value:colon(" + where + ")")
+			}
+			if strings.Contains(v, "!important") {
+				add("style-value:!important")
+			}
+			if strings.ContainsAny(v, "'\"") {
+				add("style-value:quotes")
+			}
+			if strings.ContainsAny(v, "(),/") {
+				add("style-value:parens-commas-slashes")
+			}
+			if strings.Contains(v, ";") {
+				add("style-value:inner-semicolon(" + where + ")")
+			}
+			if edgeQuote(v) {
+				add("style-value:quote-at-edge(" + where + ")")
+			}
+		}
+		staticColon, rebuilt := false, false
+		for _, a := range c.Attrs {
+			if a.Name != "style" && a.Kind != "show" {
+				continue
+			}
+			switch a.Kind {
+			case "static":
+				for _, d := range parseDecls(a.Text) {
+					punct("static", d.val)
+					staticColon = staticColon || strings.Contains(d.val, ":")
+				}
+			case "bind", "vbind":
+				if v := c.lookup(a.Text, 0); v.K == "string" {
+					for _, d := range parseDecls(v.S) {
+						punct("bound-string", d.val)
+					}
+					if t, spec := v.Truthy(); t && spec {
+						rebuilt = true
+					}
+				}
+			case "obj", "vobj":
+				for _, p := range a.Pairs {
+					if v, _, _ := c.pairVal(p, 0); v.K == "string" {
+						punct("object", v.S)
+					}
+				}
+				rebuilt = true
+			case "show":
+				if c.showFalsy() {
+					rebuilt = true
+				}
+			}
+		}
+		if staticColon && rebuilt {
+			add("style:static-colon-value-rebuilt")
+		}
+	}
 	if multiSlot[c.Place] {
 		add(fmt.Sprintf("slot-instances=%d", c.instances()))
 		onlyShow := kinds["show"] > 0
@@ -555,7 +716,14 @@ func tableVals() []vals.V {
 	out = append(out,
 		vals.Str("b1 b2"), vals.Str("hello"),
 		vals.Str("color:red"), vals.Str("color: red; width: 2px;"), vals.Str("font-size:3px;margin:0"), vals.Str("display:block"),
-		vals.Num("float64", "1.5"), vals.Int(42))
+		vals.Num("float64", "1.5"), vals.Int(42),
+		// CSS punctuation: as a style-object value, as a bound declaration list
+		vals.Str("url(https://x.test/v.png)"), vals.Str("red !important"), vals.Str("rgba(1, 2, 3, 0.5)"), vals.Str("local('a b'), serif"),
+		vals.Str("background-image: url(https://x.test/z.png); color: red"), vals.Str(`font-family: "Open Sans", serif; width: calc(50% + 1px)`),
+		vals.Str("background: url(http://h.test:8080/p.png) no-repeat; color: red !important"),
+		// ';' inside a value; quotes at the ends of a value
+		vals.Str("url(data:image/png;base64,CCCC)"), vals.Str("'a;b:c'"), vals.Str(`"Open Sans", serif`), vals.Str("serif, 'Open Sans'"),
+		vals.Str("background: url(data:image/png;base64,BBBB); color: red"), vals.Str(`content: "x;y:z"; width: 2px`))
 	return out
 }
 
@@ -613,6 +781,33 @@ func coreForms() []form {
 		{"show+bound-style", func(x string) []Attr {
 			return []Attr{{Kind: "show", Text: x}, {Kind: "obj", Name: "style", Pairs: []Pair{{Key: "color", Src: "str", Arg: "red"}}}, st("style", "color: blue")}
 		}},
+		{"style-rich-static+show", func(x string) []Attr {
+			return []Attr{st("style", `background-image: url(https://x.test/y.png); color: blue !important; font-family: 'Open Sans', serif; content: "a:b"`), {Kind: "show", Text: x}}
+		}},
+		{"style-rich-static+obj", func(x string) []Attr {
+			return []Attr{st("style", "background: url(//cdn.test:8080/a.png) no-repeat; width: calc(100% - 2px); transition: color 0.3s ease-in, width 1s"), {Kind: "obj", Name: "style", Pairs: []Pair{
+				{Key: "color", Src: "path", Arg: x}, {Key: "backgroundImage", Src: "path", Arg: "rich"}, {Key: "width", Src: "str", Arg: "calc(50% + 1px)"}}}}
+		}},
+		{"style-rich-obj+static", func(x string) []Attr {
+			return []Attr{{Kind: "vobj", Name: "style", Pairs: []Pair{{Key: "--u", Q: true, Src: "path", Arg: x}, {Key: "boxShadow", Src: "str", Arg: "0 0 1px rgba(1, 2, 3, 0.5)"}, {Key: "color", Src: "str", Arg: "red !important"}}},
+				st("style", "color: blue; --u: url(http://h/p?q=r:s); grid-area: 1 / 2 / 3 / 4")}
+		}},
+		{"style-semicolon-static+show", func(x string) []Attr {
+			return []Attr{st("style", "background: url(data:image/png;base64,AAAA) no-repeat; color: blue; content: 'a;b:c'"), {Kind: "show", Text: x}}
+		}},
+		{"style-semicolon-static+obj", func(x string) []Attr {
+			return []Attr{st("style", "--d: url(data:text/plain;charset=utf-8,x:y); color: blue"), {Kind: "obj", Name: "style", Pairs: []Pair{
+				{Key: "color", Src: "path", Arg: x}, {Key: "backgroundImage", Src: "str", Arg: "url(data:image/png;base64,DDDD)"}, {Key: "fontFamily", Src: "path", Arg: "quoted"}}}}
+		}},
+		{"style-semicolon-static+bind", func(x string) []Attr {
+			return []Attr{{Kind: "vbind", Name: "style", Text: x}, st("style", `content: "p;q"; background: url(data:image/png;base64,AAAA); margin: 0`)}
+		}},
+		{"style-rich-static+bind", func(x string) []Attr {
+			return []Attr{st("style", "background-image: url(https://x.test/y.png); color: blue; margin: 0 auto"), {Kind: "bind", Name: "style", Text: x}}
+		}},
+		{"style-rich-obj", func(x string) []Attr {
+			return []Attr{{Kind: "obj", Name: "style", Pairs: []Pair{{Key: "backgroundImage", Src: "path", Arg: x}, {Key: "content", Src: "str", Arg: "a, b"}, {Key: "color", Src: "path", Arg: "imp"}}}}
+		}},
 		{"lit", func(x string) []Attr {
 			return []Attr{{Kind: "lit", Name: "title", Text: "q", Path: x, Post: "r"}, {Kind: "lit", Name: "v-if", Text: x}, {Kind: "lit", Name: ":alt", Text: x + " > 1"}, {Kind: "lit", Name: "v-show", Text: "literal text"}}
 		}},
@@ -650,7 +845,7 @@ func corePlacements() []placement {
 func baseData(x vals.V) map[string]vals.V {
 	return map[string]vals.V{
 		"x": x, "other": vals.Str("o"), "five": vals.Int(5), "yes": vals.Bool(true), "chainoff": vals.Bool(false),
-		"markup": vals.Str("<b>h</b>"), "plain": vals.Str("txt"),
+		"markup": vals.Str("<b>h</b>"), "plain": vals.Str("txt"), "rich": vals.Str("url(https://x.test/r.png)"), "imp": vals.Str("red !important"), "quoted": vals.Str("'Open Sans', serif"),
 		forList: vals.List("[]any", vals.Str("i1"), vals.Str("i2")),
 	}
 }
@@ -693,6 +888,7 @@ func enumerate(rec *ev.Rec, f *findings, shard, shards int) (int, bool) {
 	// multi-slot placements: every form over the slot props x every ordered pair of `on` values
 	// (plus some triples) x placement; every instance is compared with the model of its row
 	onVals := []vals.V{vals.Bool(true), vals.Bool(false), vals.Int(0), vals.Int(1), vals.Str(""), vals.Str("x"), vals.Nil(), vals.Num("uint8", "0"), vals.Str("0"), vals.Num("float64", "0.5")}
+	onVals = onVals[:run.Pick(6, len(onVals))] // quick tier: the first six values, thorough: all ten
 	var rowSets [][]vals.V
 	for _, a := range onVals {
 		for _, b := range onVals {
@@ -863,14 +1059,36 @@ var (
 	classKeys    = []Pair{{Key: "k1"}, {Key: "k-2", Q: true}, {Key: "k3"}, {Key: "k4", Q: true}, {Key: "is-on", Q: true}}
 	styleKeys    = []Pair{{Key: "color"}, {Key: "fontSize"}, {Key: "backgroundColor"}, {Key: "borderTopWidth"}, {Key: "width"}, {Key: "--x", Q: true},
 		{Key: "--myVar", Q: true}, {Key: "margin-top", Q: true}, {Key: "display"}, {Key: "padding"}, {Key: "color", Q: true}}
-	staticDecls = [][2]string{{"color", "blue"}, {"padding", "1px"}, {"width", "3px"}, {"font-size", "9px"}, {"display", "block"}, {"--x", "1"}, {"background-color", "white"}, {"margin-top", "4px"}}
-	styleStrs   = []vals.V{vals.Str("color:red"), vals.Str("color: red; width: 2px;"), vals.Str("font-size:3px;margin:0"), vals.Str("display:block"), vals.Str(""), vals.Str("--x: 2; padding : 0")}
-	classStrs   = []vals.V{vals.Str("b1"), vals.Str("b1 b2"), vals.Str(""), vals.Str(" b3 "), vals.Int(5)}
-	styleVals   = []vals.V{vals.Str("red"), vals.Str("2px"), vals.Int(5), vals.Num("float64", "0.5"), vals.Str("bold"), vals.Num("uint16", "10")}
+	staticDecls = [][2]string{{"color", "blue"}, {"padding", "1px"}, {"width", "3px"}, {"font-size", "9px"}, {"display", "block"}, {"--x", "1"}, {"background-color", "white"}, {"margin-top", "4px"},
+		// values with CSS punctuation: colons, !important, parentheses, commas, quotes, slashes
+		{"background-image", "url(https://x.test/y.png)"}, {"background", "url(//cdn.test:8080/a.png) no-repeat"}, {"color", "blue !important"},
+		{"font-family", "'Open Sans', serif"}, {"width", "calc(100% - 2px)"}, {"content", `"a:b"`}, {"--u", "url(http://h/p?q=r:s)"},
+		{"transition", "color 0.3s ease-in, width 1s"}, {"background-color", "rgba(1, 2, 3, 0.5)"}, {"grid-area", "1 / 2 / 3 / 4"},
+		// a ';' that is part of the value: data URIs, quoted strings
+		{"background", "url(data:image/png;base64,AAAA) no-repeat"}, {"content", "'a;b:c'"}, {"--d", "url(data:text/plain;charset=utf-8,x:y)"}}
+	styleStrs = []vals.V{vals.Str("color:red"), vals.Str("color: red; width: 2px;"), vals.Str("font-size:3px;margin:0"), vals.Str("display:block"), vals.Str(""), vals.Str("--x: 2; padding : 0"),
+		vals.Str("background-image: url(https://x.test/z.png); color: red"), vals.Str("color: red !important"), vals.Str(`font-family: "Open Sans", serif; width: calc(50% + 1px)`),
+		vals.Str("background: url(http://h.test:8080/p.png) no-repeat; margin-top: 0"), vals.Str("content: 'k:v'; color: rgba(9, 8, 7, 0.1)"),
+		vals.Str("background: url(data:image/png;base64,BBBB); color: red"), vals.Str(`content: "x;y:z"; width: 2px`)}
+	richStyleVals = []vals.V{vals.Str("url(https://x.test/v.png)"), vals.Str("red !important"), vals.Str("rgba(1, 2, 3, 0.5)"), vals.Str("calc(100% - 2px)"),
+		vals.Str("local('a b'), serif"), vals.Str("color 0.3s ease-in, width 1s"), vals.Str("1 / 2"), vals.Str("url(//h.test:81/a?b=c:d)"), vals.Str(`"Open Sans", serif`), vals.Str("'k:v'"),
+		vals.Str("url(data:image/png;base64,CCCC)"), vals.Str("'a;b:c'"), vals.Str(`"q;r"`), vals.Str("serif, 'Open Sans'")}
+	richStyleLits = []string{"url(data:image/png;base64,DDDD)", "url(https://x.test/l.png)", "red !important", "rgba(1, 2, 3, 0.5)", "calc(100% - 2px)", "1 / 2", "a, b"}
+	classStrs     = []vals.V{vals.Str("b1"), vals.Str("b1 b2"), vals.Str(""), vals.Str(" b3 "), vals.Int(5)}
+	styleVals     = []vals.V{vals.Str("red"), vals.Str("2px"), vals.Int(5), vals.Num("float64", "0.5"), vals.Str("bold"), vals.Num("uint16", "10")}
 )
 
 func (b *builder) pairValue(label string, p Pair, pool []vals.V, loopVar bool) Pair {
 	t := b.t
+	if len(pool) > 0 && pool[0].S == styleVals[0].S && chance(t, label+"-rich", 35) {
+		// style objects: values with CSS punctuation, from data and as quoted literals
+		if chance(t, label+"-richlit", 35) {
+			p.Src, p.Arg = "str", pick(t, label+"-rl", richStyleLits)
+		} else {
+			p.Src, p.Arg = "path", b.newVar(pick(t, label+"-rv", richStyleVals))
+		}
+		return p
+	}
 	switch rapid.IntRange(0, 9).Draw(t, label+"-src") {
 	case 0:
 		p.Src, p.Arg = "bool", pick(t, label+"-b", []string{"true", "false"})
